@@ -124,7 +124,12 @@ def lex_stream(ctx, genprop="LEX", subdir="lex"):
             if lex_class(i) in ("PANIC", "CRASH", "HANG"):
                 mism.append(dict(id=cid, src=src, tag=tag, impl=i, model=None, cls="impl-" + lex_class(i).lower()))
             continue
-        if i == m:
+        if lex_class(i) in ("PANIC", "CRASH", "HANG", "HARNESS-PANIC"):
+            # never acceptable (C08), even where a model built from the same (defective) tables panics too
+            cls = "impl-" + lex_class(i).lower()
+            counters["mismatch-" + cls] += 1
+            mism.append(dict(id=cid, src=src, tag=tag, impl=i, model=m, cls=cls))
+        elif i == m:
             counters["agree"] += 1
             toks = parse_toks(m)
             if toks is not None and len(toks) > 2:
